@@ -308,7 +308,9 @@ const SPACES: &[char] = &[
 const MARKERS: &[char] = &['\\', '\\', '!', '^', '\'', '$'];
 
 fn gen_pattern(rng: &mut Rng, allow_nonascii: bool) -> String {
-    let len = rng.range(0, 12);
+    // one pattern in 300 is a pasted text: thousands of characters, hundreds to thousands of atoms, runs of blanks
+    let long = rng.chance(1, 300);
+    let len = if long { rng.range(1500, 9000) } else { rng.range(0, 12) };
     let mut s = String::new();
     for _ in 0..len {
         let c = match rng.below(10) {
@@ -316,7 +318,7 @@ fn gen_pattern(rng: &mut Rng, allow_nonascii: bool) -> String {
             4 | 5 => *rng.pick(MARKERS),
             6 | 7 => *rng.pick(SPACES),
             _ => {
-                if allow_nonascii && rng.chance(1, 3) {
+                if allow_nonascii && !long && rng.chance(1, 3) {
                     *rng.pick(JOINING)
                 } else if allow_nonascii && rng.chance(1, 3) {
                     *rng.pick(SYNTAX_ALIASES)
@@ -459,6 +461,9 @@ pub fn run(opts: &Opts, rep: &mut Report) {
                 let reference = ref_parse(&p, case, norm);
                 rep.count("c14.parsed");
                 rep.add("c14.atoms", reference.len() as u64);
+                if p.chars().filter(|c| c.is_whitespace()).count() > 1024 {
+                    rep.count("c14.parsed-with-more-than-1024-blanks");
+                }
                 if !reference.is_empty() {
                     let mut h = Hasher64::new();
                     h.add_chars(&p.chars().collect::<Vec<_>>());
